@@ -8,6 +8,7 @@ pub struct Api {
     pub write: fn(usize, &Value, &mut UperWriter) -> Option<Result<(), asn1rs::protocol::per::Error>>,
     pub read: fn(usize, &mut UperReader<Bits<'_>>) -> Result<Value, asn1rs::protocol::per::Error>,
     pub twrite: fn(usize, &Value, &mut crate::uptrace::Tw) -> Option<Result<(), asn1rs::protocol::per::Error>>,
+    pub tread: fn(usize, &mut crate::uptrace_read::Tr<'_>) -> Result<Value, asn1rs::protocol::per::Error>,
     pub pwrite: fn(usize, &Value, &mut ProtobufWriter<'_>) -> Option<Result<(), asn1rs::protocol::protobuf::Error>>,
     pub pread: fn(usize, &mut ProtobufReader<'_>) -> Result<Value, asn1rs::protocol::protobuf::Error>,
     pub pcheck: fn(usize, &mut ProtobufReader<'_>) -> Result<(), asn1rs::protocol::protobuf::Error>,
@@ -29,6 +30,7 @@ pub fn main(api: Api) {
             stream(&api, &args[2], &mut out);
         }
         "uptrace" => uptrace(&api, &args[2], &mut out, &kv),
+        "uptrace_read" => uptrace_read(&api, &args[2], &mut out, &kv),
         "versions" => versions(&api, &args[2], &mut out),
         "decode" => decode(&api, &args[2], &mut out, &kv),
         "proto" => proto(&api, &args[2], &mut out, &kv),
@@ -698,4 +700,56 @@ fn pdecode(api: &Api, input: &str, out: &mut Out, kv: &Kv) {
         }
     }
     out.line(&json!({"summary": true, "cases": n, "seeds": seeds.len(), "descriptors": descs.len(), "stats": stats, "devtypes": devtypes}));
+}
+
+/// T direction for the reader machine: the reference bits of every vector are read through the tracing wrapper; one reset
+/// event per message (with the message bits), then the per-call events with the number of bits consumed.
+fn uptrace_read(api: &Api, input: &str, out: &mut Out, kv: &Kv) {
+    let max_bits = kv_u64(kv, "maxbits", 400) as usize;
+    let stride = kv_u64(kv, "stride", 1);
+    let (mut n, mut traced, mut events) = (0u64, 0u64, 0u64);
+    for (i, c) in read_lines(input) {
+        n += 1;
+        let nbits = c["bits"].as_array().map(|b| b.len()).unwrap_or(0);
+        // versions vectors: the bits were written under schema tw and are read under schema tr (also inside the class of
+        // the open finding: the trace specification models the deviation); same-version vectors: valid encodings only
+        let cross = c.get("tr").is_some();
+        if (i as u64) % stride != 0 || nbits > max_bits || nbits == 0 && cross
+            || (!cross && (c["dev"].as_str().unwrap_or("") != "" || !c["ok"].as_bool().unwrap_or(false)))
+        {
+            continue;
+        }
+        let ti = usize_of(if cross { &c["tr"] } else { &c["ti"] });
+        let (bytes, len) = image(&c["bits"]);
+        let _ = crate::uptrace::take_events();
+        let r = guarded(|| {
+            let mut r = crate::uptrace_read::Tr::new(&bytes[..], len);
+            (api.tread)(ti, &mut r)
+        });
+        let evs = crate::uptrace::take_events();
+        let (ok, same) = match r {
+            Err(p) => {
+                out.line(&json!({"ev": "panic", "line": i, "ti": ti, "why": p}));
+                continue;
+            }
+            Ok(r) => {
+                // the wrapper must be transparent: same result as the plain reader
+                let mut p = UperReader::from((&bytes[..], len));
+                let pr = (api.read)(ti, &mut p);
+                let same = match (&r, &pr) {
+                    (Ok(a), Ok(b)) => a == b,
+                    (Err(_), Err(_)) => true,
+                    _ => false,
+                };
+                (r.is_ok(), same)
+            }
+        };
+        traced += 1;
+        events += evs.len() as u64 + 1;
+        out.line(&json!({"ev": "reset", "ph": "call", "line": i, "ti": ti, "ok": ok, "transparent": same, "bits": c["bits"]}));
+        for e in evs {
+            out.line(&e);
+        }
+    }
+    out.line(&json!({"ev": "summary", "ph": "call", "cases": n, "traced": traced, "events": events}));
 }
